@@ -389,18 +389,25 @@ def _with_branch(st, ifexp, branch):
 
 
 def canon_while(st):
-    """``while True: if C: break; <rest>`` is ``while not C: <rest>`` (the loop has no else
-    clause): the normal form is the loop with the condition in its header."""
-    if isinstance(st, ast.While) and isinstance(st.test, ast.Constant) and \
-            st.test.value is True and not st.orelse and len(st.body) > 1:
+    """``while C: if D: break; <rest>`` is ``while C and not D: <rest>`` (no else clause on the
+    loop; the ``if`` is the first statement of the body, so nothing happens between the two
+    tests); with C == True that is ``while not D``.  The normal form keeps the whole
+    condition in the loop header."""
+    while isinstance(st, ast.While) and not st.orelse and len(st.body) > 1:
         first = st.body[0]
-        if isinstance(first, ast.If) and not first.orelse and len(first.body) == 1 and \
-                isinstance(first.body[0], ast.Break):
-            test = ast.UnaryOp(ast.Not(), first.test)
-            ast.copy_location(test, first.test)
-            w = ast.While(test=test, body=st.body[1:], orelse=[])
-            ast.copy_location(w, st)
-            return w
+        if not (isinstance(first, ast.If) and not first.orelse and len(first.body) == 1 and
+                isinstance(first.body[0], ast.Break)):
+            break
+        neg = ast.UnaryOp(ast.Not(), first.test)
+        ast.copy_location(neg, first.test)
+        if isinstance(st.test, ast.Constant) and st.test.value is True:
+            test = neg
+        else:
+            test = ast.BoolOp(ast.And(), [st.test, neg])
+            ast.copy_location(test, st.test)
+        w = ast.While(test=test, body=st.body[1:], orelse=[])
+        ast.copy_location(w, st)
+        st = w
     return st
 
 
@@ -763,6 +770,10 @@ class Builder:
                 t, f = [(head, 'next')], []
             else:
                 t, f = self._cond(st.test, [(head, 'next')], st)
+            # the ways out of the loop through its condition: (test node id, edge label)
+            c.__dict__.setdefault('loop_exits', {})[head.id] = {(n_.id, l_) for n_, l_ in f}
+            c.__dict__.setdefault('loop_tests', {})[head.id] = {n_.id for n_, _l in t} | \
+                {n_.id for n_, _l in f}
             self.frames.append(_Loop(head, after))
             outs = self._block(st.body, t)
             self.frames.pop()
